@@ -26,8 +26,12 @@ def _is_float_dtype(dt):
         return False
 
 
+OBJECT_CREATION = True  # False: creation functions keep machine dtypes (harnesses whose data are concrete)
+WRAP_ALL = False  # fsmodel mode: every array created inside analysed modules is an SArr (so that .tofile is modelled)
+
+
 def _wrap(r):
-    if isinstance(r, np.ndarray) and r.dtype == object and not isinstance(r, SArr):
+    if isinstance(r, np.ndarray) and (r.dtype == object or WRAP_ALL) and not isinstance(r, SArr):
         return r.view(SArr)
     if isinstance(r, tuple):
         return tuple(_wrap(x) for x in r)
@@ -111,13 +115,15 @@ class Facade:
 
     # ---- dtype -----------------------------------------------------
     def dtype(self, spec, *a, **k):
-        if Engine.cur is not None and isinstance(spec, list):
+        if OBJECT_CREATION and Engine.cur is not None and isinstance(spec, list):
             spec = [(n, "O") if not isinstance(t, np.dtype) or t.kind in "fiu" else (n, t) for n, t in
                     [(x[0], np.dtype(x[1])) for x in spec]]
         return np.dtype(spec, *a, **k)
 
     # ---- creation --------------------------------------------------
     def _create(self, fn, shape, dtype, fill=None):
+        if not OBJECT_CREATION:
+            return _wrap(fn(shape, dtype=dtype) if fill is None else np.full(shape, fill, dtype=dtype))
         if Engine.cur is not None and (_is_float_dtype(dtype)):
             a = np.empty(shape, dtype=object)
             if fill is not None:
@@ -171,7 +177,17 @@ class Facade:
         if is_symbolic_seq(a):
             arr = a if isinstance(a, np.ndarray) else np.asarray(a, dtype=object)
             return arr.view(SArr) if not isinstance(arr, SArr) else arr
-        return np.asarray(a, dtype=dtype, **k)
+        return _wrap(np.asarray(a, dtype=dtype, **k))
+
+    def loadtxt(self, path, *a, **k):
+        from vf.stubs import fsmodel
+
+        return _wrap(fsmodel.loadtxt(path, *a, **k))
+
+    def fromfile(self, file, dtype=float, **k):
+        from vf.stubs import fsmodel
+
+        return _wrap(fsmodel.fromfile(file, dtype=dtype, **k))
 
     array = asarray
 
